@@ -870,7 +870,7 @@ func (e *Exec) execRangeSeq(st *State, s *ast.RangeStmt, label string, xt types.
 	idxObj := e.newPseudo("idx", types.Typ[types.Int])
 	define := s.Tok == token.DEFINE
 	st.Vars[idxObj] = Int(0)
-	e.vis = append(e.vis, visInfo{ord: ord, iter: idxObj})
+	e.vis = append(e.vis, visInfo{ord: ord, iter: idxObj, seq: seq})
 	defer func() { e.vis = e.vis[:len(e.vis)-1] }()
 	// at the loop head the key variable equals the next index
 	e.bindRangeVar(st, s.Key, define, Int(0))
